@@ -9,7 +9,7 @@ correspondence:  the REAL ReadCropParamClassic / ReadCropParamYml + ParseCropOve
 oracle:          the property itself on the real binary: paired whole runs (override on the batch line vs a
                  parameter folder with the edited file), result folders compared as bytes
 """
-import copy, os, random
+import copy, os, random, shutil
 import yaml
 from core import Corr, Fail, REPO
 from props import fmtlib as F, cropcorr as CC
@@ -145,10 +145,40 @@ def correspond(ctx):
             r["b"] = job("classic", p, prior, cont)           # no override at all
             r["yb"] = job("yaml", p + ".yml", prior, cont)
         rows.append(r)
+    # the address of an override: CropFile must EQUAL the name of the file read (not a prefix, not the twin of the other format)
+    addr = []
+    eff = [["c_MAXAMAX", "30"], ["c_TSUM_1", "90"], ["c_PRO_1_1", "0.35"]]
+    pairs_addr = [(os.path.join(par, "PARAM.WRA"), False, "PARAM.WR"), (os.path.join(par, "PARAM.WRC.yml"), True, "PARAM.WR"),
+                  (os.path.join(par, "PARAM.WRA"), False, "PARAM.WRA")]
+    for fn in base:
+        p = os.path.join(par, fn)
+        sib = os.path.join(wd, fn + "X")
+        shutil.copy(p, sib); shutil.copy(p + ".yml", sib + ".yml")
+        pairs_addr += [(sib, False, fn), (sib + ".yml", True, fn + ".yml"), (sib + ".yml", True, fn), (p + ".yml", True, fn), (p, False, fn + ".yml"),
+                       (p, False, "PARAM"), (p, False, fn[:-1]), (p, False, fn), (p + ".yml", True, fn + ".yml")]
+    for (path, yml, target) in pairs_addr:
+        prior, cont = rnd.choice([(0, False), (1, False), (1, True)])
+        a = {"path": path, "yml": yml, "target": target, "prior": prior, "cont": cont, "fname": os.path.basename(path)}
+        a["j"] = job("yaml" if yml else "classic", path, prior, cont, eff, target)
+        a["j0"] = job("yaml" if yml else "classic", path, prior, cont)
+        a["rid"] = job("record", path) if yml else None
+        addr.append(a)
     res = CC.run_jobs(ctx, jobs)
     _cache["state_rows"] = (rows, res)
+    _cache["addr_rows"] = (addr, res)
     cs = CC.CaseSet(per_shard=45 if not ctx.thorough else 120)
     seen = set()
+    for a in addr:
+        d = "file %s addressed as CropFile=%s" % (a["fname"], a["target"])
+        targs = "[%s]" % "; ".join('("%s", "%s")' % (k_, v_) for k_, v_ in eff)
+        if a["yml"]:
+            cs.add(lambda file, a=a: 'CYamlTo %s "%s" "%s" %s %s %s %s' % (CC.rec_term(res[a["rid"]]), a["fname"], a["target"], CC.b(a["prior"]),
+                                                                          CC.b(a["cont"]), targs, CC.obs_term(res[a["j"]])), "address " + d)
+        else:
+            data = open(a["path"], "rb").read()
+            cs.add(lambda file, a=a, data=data: 'CClassicTo %d%%nat "%s" "%s" %s %s %s %s' % (file(data), a["fname"], a["target"], CC.b(a["prior"]),
+                                                                                             CC.b(a["cont"]), targs, CC.obs_term(res[a["j"]])), "address " + d)
+        c.bump("address=" + ("same" if a["fname"] == a["target"] else "other"))
     for k, r in enumerate(rows):
         d = "%s %s prior=%d cont=%s" % (r["fn"], r["label"], r["prior"], r["cont"])
         args = [tuple(x) for x in r["args"]]
@@ -190,7 +220,7 @@ def _project_variants(env, rnd, par, fn, tag):
     out = []
     P = F.base_project(rnd, crops=((abbr, var), (abbr, var)), years=(1980, 1983))
     F.write_project(env, tag + "s", P)
-    out.append((tag + "s", P, "self", ne))
+    out.append((tag + "s", P, "self", ne, ""))
     for kind, pick in (("after-more-stages", lambda e: e > ne), ("after-fewer-stages", lambda e: e < ne)):
         cands = sorted(f for f, d in dims.items() if pick(d[1]) and d[2] != abbr)
         if not cands:
@@ -202,8 +232,17 @@ def _project_variants(env, rnd, par, fn, tag):
         Q.rot = [Q.rot[0], Q.rot[1]] + [(abbr,) + r[1:6] + (var,) for r in Q.rot[2:]]
         nm = tag + ("m" if kind == "after-more-stages" else "f")
         F.write_project(env, nm, Q)
-        out.append((nm, Q, kind, dims[pf][1]))
-    return out
+        out.append((nm, Q, kind, dims[pf][1], ""))
+    # ... and the target crop FOLLOWED by a crop whose parameter file name starts with the target's name (a copy of the
+    # target file under the crop name <abbr>X): the override is addressed to one file name, not to a prefix
+    sibname = "PARAM_%s.%sX" % (var, abbr) if var else "PARAM.%sX" % abbr
+    sibs = {sibname: open(os.path.join(par, fn), "rb").read(), sibname + ".yml": open(os.path.join(par, fn + ".yml"), "rb").read()}
+    sibpar = F.param_folder(env, tag + "sibpar", sibs)
+    S = F.base_project(rnd, crops=((abbr, var), (abbr, var)), years=(1980, 1983))
+    S.rot = S.rot[:2] + [(abbr + "X",) + r[1:] for r in S.rot[2:]]
+    F.write_project(env, tag + "x", S)
+    out.append((tag + "x", S, "before-name-sibling", ne, "parameter=%s" % sibpar))
+    return out, sibs
 
 
 def oracle(ctx, search):
@@ -222,13 +261,21 @@ def oracle(ctx, search):
                                       what="crop state after %s differs from the state read from the %s file" %
                                            ("the override" if r["valid"] else "the rejected override", "edited" if r["valid"] else "unchanged"),
                                       prior=r["prior"], perennial_continuation=r["cont"]))
+    if "addr_rows" in _cache:
+        addr, res = _cache["addr_rows"]
+        for a in addr:
+            if a["fname"] != a["target"]:
+                ox, oy = res.get(a["j"], {}), res.get(a["j0"], {})
+                if ox.get("f") != oy.get("f") or ox.get("z") != oy.get("z"):
+                    fails.append(Fail(key="other-file-touched:loaded-state:%s:CropFile=%s" % (a["fname"], a["target"]),
+                                      what="an override addressed to %s changes the crop read from %s" % (a["target"], a["fname"])))
     # 2. paired whole runs
     plan = _plan(ctx)
     if search:      # every value of every target of the chosen files
         plan = [(fn, [(n, i, j, t)], True) for fn in _files(ctx)
                 for (n, i, j) in F.all_targets(*F.classic_dims(F.read_lines(os.path.join(par, fn)))) for t in F.VALID[n]] + \
                [p for p in plan if not p[2] or len(p[1]) > 1]
-    projects, lines, pairs = {}, [], []
+    projects, lines, pairs, others = {}, [], [], []
     full = set(_files(ctx)[:3])
     soak = bool(os.environ.get("VERIF_SOAK")) or search      # VERIF_SOAK=1: whole runs for every row (not a registered tier)
     for k, (fn, entries, valid) in enumerate(plan):
@@ -237,31 +284,39 @@ def oracle(ctx, search):
             continue                    # thorough: whole runs for every 6th single override of the files beyond the first three
         if fn not in projects:
             vs = []
-            for (name, P, kind, pne) in _project_variants(env, rnd, par, fn, "ov%d" % len(projects)):
-                bi = len(lines); lines.append(F.line_for(name, P))
-                byi = len(lines); lines.append(F.line_for(name, P, extra="CropParameterFormat=yml"))
-                vs.append((name, P, kind, pne, bi, byi))
+            variants, sibs = _project_variants(env, rnd, par, fn, "ov%d" % len(projects))
+            for (name, P, kind, pne, pex) in variants:
+                bi = len(lines); lines.append(F.line_for(name, P, extra=pex))
+                byi = len(lines); lines.append(F.line_for(name, P, extra="CropParameterFormat=yml " + pex))
+                vs.append((name, P, kind, pne, bi, byi, pex))
+                if kind == "self":
+                    # an override addressed to another name (the twin of the other format, a prefix of the name) changes nothing
+                    e_ = "c_MAXAMAX=30 c_TSUM_1=90"
+                    for extra, bidx in (("CropParameterFormat=yml CropFile=%s %s" % (fn, e_), byi), ("CropFile=%s.yml %s" % (fn, e_), bi),
+                                        ("CropFile=%s %s" % (fn[:-1], e_), bi), ("CropFile=PARAM %s" % e_, bi)):
+                        x = len(lines); lines.append(F.line_for(name, P, extra=extra))
+                        others.append((fn, extra, x, bidx))
             projects[fn] = (vs, F.read_lines(os.path.join(par, fn)), yaml.safe_load(open(os.path.join(par, fn + ".yml"), encoding="utf-8")),
-                            F.classic_dims(F.read_lines(os.path.join(par, fn)))[1])
-        vs, lines0, doc0, ne = projects[fn]
+                            F.classic_dims(F.read_lines(os.path.join(par, fn)))[1], sibs)
+        vs, lines0, doc0, ne, sibs = projects[fn]
         key = _label(entries)
         pf = None
         if valid:
             ed, doc = _edits(lines0, doc0, entries)
-            pf = F.param_folder(env, "pe%d" % k, {fn: b"\n".join(ed) + b"\n",
-                                                  fn + ".yml": yaml.safe_dump(doc, sort_keys=False, allow_unicode=True).encode()})
+            pf = F.param_folder(env, "pe%d" % k, dict(sibs, **{fn: b"\n".join(ed) + b"\n",
+                                                  fn + ".yml": yaml.safe_dump(doc, sort_keys=False, allow_unicode=True).encode()}))
         top = max([e[1] for e in entries] + [0])
-        for (name, P, kind, pne, bi, byi) in vs:
+        for (name, P, kind, pne, bi, byi, pex) in vs:
             if kind != "self" and not soak:
                 # next to another crop: everything that is invalid or a set, the stages only one of the two crops has, a sample of the rest
                 if single and not (top > min(ne, pne)) and k % 6:
                     continue
             # the YAML crop file: every row that is invalid or a set, TSUM, and every 2nd of the other single overrides
             with_yaml = soak or not single or entries[0][0] == "TSUM" or (k + (kind != "self")) % 2 == 0
-            a = len(lines); lines.append(F.line_for(name, P, extra="CropFile=%s %s" % (fn, key)))
+            a = len(lines); lines.append(F.line_for(name, P, extra="%s CropFile=%s %s" % (pex, fn, key)))
             ya = yb = None
             if with_yaml:
-                ya = len(lines); lines.append(F.line_for(name, P, extra="CropParameterFormat=yml CropFile=%s.yml %s" % (fn, key)))
+                ya = len(lines); lines.append(F.line_for(name, P, extra="%s CropParameterFormat=yml CropFile=%s.yml %s" % (pex, fn, key)))
             if valid:
                 b_ = len(lines); lines.append(F.line_for(name, P, extra="parameter=%s" % pf))
                 if with_yaml:
@@ -272,7 +327,7 @@ def oracle(ctx, search):
     runs = F.run_lines(env, "C18", lines, timeout=1800)
     effective = both_failed = 0
     for fn, pr in projects.items():
-        for (name, P, kind, pne, bi, byi) in pr[0]:
+        for (name, P, kind, pne, bi, byi, pex) in pr[0]:
             for x in (bi, byi):
                 if runs[x].err:
                     fails.append(Fail(key="baseline-run-failed:%s:%s" % (fn, kind), what="the run without override fails: %s" % runs[x].err, line=runs[x].line))
@@ -294,6 +349,13 @@ def oracle(ctx, search):
                                           "edit": "file %s: %s" % (fn, key)}))
         if valid and not F.same(runs[a], runs[base_i]):
             effective += 1
+    for fn, extra, x, bidx in others:
+        if not F.same(runs[x], runs[bidx]):
+            fails.append(Fail(key="other-file-touched:%s:%s" % (fn, extra.replace(" ", "_")),
+                              what="an override addressed to another file name changes the run: " + F.diff_what(runs[x], runs[bidx]),
+                              first_difference=F.first_diff(env, "C18", x, bidx),
+                              replay={"cwd": "scratch copy of /repo/examples", "line_a": runs[x].line, "line_b": runs[bidx].line}))
+    ctx.extra["address_mismatch_runs"] = len(others)
     ctx.extra["paired_runs"] = len(lines)
     ctx.extra["pairs"] = sum(1 for p_ in pairs for q in ((p_[4], p_[5]), (p_[6], p_[7])) if q[0] is not None and q[1] is not None)
     ctx.extra["valid_overrides_that_change_the_results"] = effective
